@@ -45,7 +45,7 @@ CHECKS = {
         'slot and a function-pointer cast rendered from the same signature; stack effect and result declaration are right. On a module with '
         'two imports and three functions the call emitter, the import/function declarations, the definitions, the export wrappers, the element '
         'stores, the start call and the symbol-prefixed variants all spell the same identifier for the same module-level index and pick the '
-        'type through imports first; WASI imports are spelled exactly as the symbols wasi.c defines. A call or call_indirect in unreachable code, translated from bytes (minimal and padded LEB128), consumes exactly its immediates and emits nothing (R04.6).',
+        'type through imports first; WASI imports are spelled exactly as the symbols wasi.c defines. A call or call_indirect in unreachable code, translated from bytes (minimal and padded LEB128), consumes exactly its immediates and emits nothing (R04.6). Each function is translated with an empty operand stack whatever the function written before it left (R04.7, shared with C03).',
    note='Runtime table bounds/signature checks are outside the property; the C ABI is trusted.',
    ref='DESIGN.md 4/C04'),
  'C05': dict(
@@ -102,7 +102,7 @@ CHECKS = {
         'function or casts away const from module data; the stateful debug-line cursor reaches workers only under threadCount == 1. The '
         'split loops append each function exactly once to exactly one list before advancing, static only under hash equality with the '
         'consumed reference entry. For about 650 template pairs the pretty and compact forms have the same typed AST and symbol prefixing '
-        'only prefixes callee identifiers; all File/String twin emitters agree on a grid of names/indices/flags. The getopt option string and the option switch agree on which options take an argument (R09.12); the export-section reader records the export name of every defined function, the first one included, which -g consults (R09.13). The static/dynamic split is evaluated on concrete hash-sorted lists: every function lands in exactly one list (R09.3).',
+        'only prefixes callee identifiers; all File/String twin emitters agree on a grid of names/indices/flags. The getopt option string and the option switch agree on which options take an argument (R09.12); the export-section reader records the export name of every defined function, the first one included, which -g consults (R09.13). The static/dynamic split is evaluated on concrete hash-sorted lists: every function lands in exactly one list (R09.3). Every local has its own zero initialiser in the compact and in the pretty output (R09.14, shared with C03 / C11).',
    note='Not decided: byte-identical output and deadlock freedom under every interleaving (schedule-quantified; the rules are the structural '
         'necessary conditions), the file-count arithmetic for all (n, f), -g/-r behaviour beyond these rules, compile-on-its-own of every emitted file.',
    ref='DESIGN.md 4/C09'),
@@ -115,7 +115,7 @@ CHECKS = {
         'of the accessed length with the same buffer\'s length whose failing edge leaves the path (the consumed-bytes adjustment in the code '
         'section reader is recognised as an idiom); pointers flowing interprocedurally from the two locations the code itself treats as '
         'possibly NULL (writer-task debugLines, per-function name slots) are never dereferenced or passed to a library function without a '
-        'dominating NULL test; hex escapes of name bytes format an unsigned byte. These are necessary conditions of memory safety. SHA1Update (every function body is hashed) is evaluated on lengths around the block boundaries for every buffer fill: all block reads and copies stay inside the input and the context buffer (R10.16).',
+        'dominating NULL test; hex escapes of name bytes format an unsigned byte. These are necessary conditions of memory safety. SHA1Update (every function body is hashed) is evaluated on lengths around the block boundaries for every buffer fill: all block reads and copies stay inside the input and the context buffer (R10.16). The growable type / declaration / label tables are stored to only by their owner helpers or under a guard against the table\'s own length (R10.17).',
    note='Not decided: termination and memory safety for every module as a whole (index arithmetic on type/label stacks relies on module '
         'validity), allocation failure, PATH_MAX-sized path copies (axiom), libdwarf-only consumers. Distinct access paths in one function '
         'are assumed not to alias.',
@@ -142,7 +142,7 @@ CHECKS = {
         'fd_seek/fd_tell: whence tables of both generations against the host SEEK_* values, u64 result. errno switch: every host E* value '
         'maps to the witx number of the same name. path_open: each oflags/fdflags bit sets the same-named host flag, access mode follows the '
         'rights, the new descriptor is stored as u32. filestat (both generations) and fdstat: (offset, width) of every store and the zero-fill '
-        'size equal the witx struct. wrapPositional restores the saved position on every path and preserves the transfer\'s errno. Positional transfers with offsets that are negative as off_t fail with EINVAL and transfer nothing.',
+        'size equal the witx struct. wrapPositional restores the saved position on every path and preserves the transfer\'s errno. Positional transfers with offsets that are negative as off_t fail with EINVAL and transfer nothing. The descriptor table is evaluated on concrete insert / close sequences: the number path_open reports denotes the new descriptor and no other live one (R12.9, shared with C13).',
    note='POSIX behaviour of the host calls, short transfers and resulting file contents are not decided; host constants come from the build\'s headers.',
    ref='DESIGN.md 4/C12'),
  'C13': dict(
@@ -165,7 +165,7 @@ CHECKS = {
         'coefficient-wise, by a guard of its path (so an off-by-one in either guard is reported with the offending index expression), the '
         'empty path is rejected, absolute paths are copied unchanged, a separator is inserted iff needed; descriptor paths satisfy 0 < len < PATH_MAX. '
         'fd_readdir, for {stream open, closed} x {cookie 0, unknown}: the first readdir() is always preceded by opendir/seekdir/rewinddir; dirent '
-        'fields are stored at the witx offsets with telldir/inode/strlen values, the name follows the record, bufused = buflen signals a full buffer. Every path import is additionally evaluated with concrete resolved paths (root, doubled and trailing separators): the bytes handed to the host call are the resolved path, for rmdir/mkdir up to trailing separators (R14.12). The errno table has rows for the errors POSIX requires of the named operations (ENOTEMPTY, ELOOP, ENAMETOOLONG, EOVERFLOW). With the host call failing, every path import returns exactly the witx number of errno for a family of errno values (R14.13).',
+        'fields are stored at the witx offsets with telldir/inode/strlen values, the name follows the record, bufused = buflen signals a full buffer. Every path import is additionally evaluated with concrete resolved paths (root, doubled and trailing separators): the bytes handed to the host call are the resolved path, for rmdir/mkdir up to trailing separators (R14.12). The errno table has rows for the errors POSIX requires of the named operations (ENOTEMPTY, ELOOP, ENAMETOOLONG, EOVERFLOW). With the host call failing, every path import returns exactly the witx number of errno for a family of errno values (R14.13). An entry whose name is cut by the end of the buffer still carries its full name length.',
    note='Host directory semantics (stable telldir cookies), completeness of a listing across calls and symlink-follow flags are not decided. '
         'The unbounded strcat in the lstat fallback of fd_readdir is recorded as a note (not replayable here).',
    ref='DESIGN.md 4/C14'),
@@ -225,7 +225,7 @@ CHECKS = {
         'sprintf whose prefix flows from the literals s/d, or to the literal "datasegments"; inputs are opened read-only; chdir(dirname(output)) '
         'dominates writer and cleaner; remove() occurs only in the cleaner, which runs only under -c. The set of names that reach remove() '
         'is computed exactly for every name length 0..20 and equals [sd][0-9]{10}.c in both directions; the writer\'s format, index '
-        'width and buffer size agree with it. Option string and option switch agree on which options take an argument (R20.8) - otherwise the operands shift and the output lands on the input path.',
+        'width and buffer size agree with it. Option string and option switch agree on which options take an argument (R20.8) - otherwise the operands shift and the output lands on the input path. The cleaner\'s glob pattern (literals, ?, [sets], one *) is intersected with the language of names its filter lets through.',
    note='Symlinks in the output directory, the behaviour of glob()/basename() and races with other processes are outside the analysis.',
    ref='DESIGN.md 4/C20'),
 }
